@@ -172,8 +172,87 @@ impl Tagged for Dv {
     }
 }
 
-const NTYPES: u32 = 7;
-const TYPE_NAMES: [&str; 7] = ["z", "u8", "u128", "arr", "a64", "vec", "dv"];
+/// Zero-sized result WITH a destructor: it cannot carry its thread's number, the `vdrop` event is
+/// attributed by the task that runs the destructor (the thread itself, or the handle owner).
+struct Zd;
+impl Drop for Zd {
+    fn drop(&mut self) {
+        if QUIET.load(Ordering::Relaxed) {
+            return;
+        }
+        Ev::new("vdrop").u("k", 0).u("zst", 1).emit();
+    }
+}
+impl Tagged for Zd {
+    const NAME: &'static str = "zd";
+    fn make(_k: u32) -> Self {
+        Zd
+    }
+    fn ok(&self, _k: u32) -> bool {
+        true
+    }
+}
+/// Over-aligned result with a destructor.
+#[repr(align(64))]
+struct A64d {
+    k: u32,
+    t: u64,
+    by_probe: bool,
+    pad: [u8; 40],
+}
+impl Drop for A64d {
+    fn drop(&mut self) {
+        if QUIET.load(Ordering::Relaxed) {
+            return;
+        }
+        Ev::new("vdrop").u("k", self.k as u64).b("by_probe", self.by_probe).emit();
+    }
+}
+impl Tagged for A64d {
+    const NAME: &'static str = "a64d";
+    fn make(k: u32) -> Self {
+        A64d { k, t: tag(k), by_probe: false, pad: [tag(k) as u8; 40] }
+    }
+    fn ok(&self, k: u32) -> bool {
+        (core::ptr::from_ref(self) as usize) % 64 == 0 && self.k == k && self.t == tag(k) && self.pad.iter().all(|x| *x == tag(k) as u8)
+    }
+    fn consumed_by_probe(&mut self) {
+        self.by_probe = true;
+    }
+}
+/// Large result with a destructor.
+struct Arrd {
+    k: u32,
+    a: [u64; 17],
+    by_probe: bool,
+}
+impl Drop for Arrd {
+    fn drop(&mut self) {
+        if QUIET.load(Ordering::Relaxed) {
+            return;
+        }
+        Ev::new("vdrop").u("k", self.k as u64).b("by_probe", self.by_probe).emit();
+    }
+}
+impl Tagged for Arrd {
+    const NAME: &'static str = "arrd";
+    fn make(k: u32) -> Self {
+        let mut a = [0u64; 17];
+        for (i, x) in a.iter_mut().enumerate() {
+            *x = tag(k).wrapping_add(i as u64);
+        }
+        Arrd { k, a, by_probe: false }
+    }
+    fn ok(&self, k: u32) -> bool {
+        self.k == k && self.a.iter().enumerate().all(|(i, x)| *x == tag(k).wrapping_add(i as u64))
+    }
+    fn consumed_by_probe(&mut self) {
+        self.by_probe = true;
+    }
+}
+
+const NTYPES: u32 = 10;
+const TYPE_NAMES: [&str; 10] = ["z", "u8", "u128", "arr", "a64", "vec", "dv", "zd", "a64d", "arrd"];
 
 enum AnyH {
     Z(JoinHandle<Z>),
@@ -183,6 +262,9 @@ enum AnyH {
     A64(JoinHandle<A64>),
     Vec(JoinHandle<Vec<u8>>),
     Dv(JoinHandle<Dv>),
+    Zd(JoinHandle<Zd>),
+    A64d(JoinHandle<A64d>),
+    Arrd(JoinHandle<Arrd>),
 }
 
 // ------------------------------------------------------------------------------------------
@@ -557,7 +639,10 @@ fn spawn_any(ty: u32, p: ThreadPlan) -> Option<AnyH> {
         3 => spawn_t::<Arr>(p).map(AnyH::Arr),
         4 => spawn_t::<A64>(p).map(AnyH::A64),
         5 => spawn_t::<Vec<u8>>(p).map(AnyH::Vec),
-        _ => spawn_t::<Dv>(p).map(AnyH::Dv),
+        6 => spawn_t::<Dv>(p).map(AnyH::Dv),
+        7 => spawn_t::<Zd>(p).map(AnyH::Zd),
+        8 => spawn_t::<A64d>(p).map(AnyH::A64d),
+        _ => spawn_t::<Arrd>(p).map(AnyH::Arrd),
     }
 }
 
@@ -570,6 +655,9 @@ fn join_any(k: u32, h: AnyH) {
         AnyH::A64(h) => join_t(k, h),
         AnyH::Vec(h) => join_t(k, h),
         AnyH::Dv(h) => join_t(k, h),
+        AnyH::Zd(h) => join_t(k, h),
+        AnyH::A64d(h) => join_t(k, h),
+        AnyH::Arrd(h) => join_t(k, h),
     }
 }
 
@@ -582,6 +670,9 @@ fn drop_any(k: u32, h: AnyH) {
         AnyH::A64(h) => drop_t(k, h),
         AnyH::Vec(h) => drop_t(k, h),
         AnyH::Dv(h) => drop_t(k, h),
+        AnyH::Zd(h) => drop_t(k, h),
+        AnyH::A64d(h) => drop_t(k, h),
+        AnyH::Arrd(h) => drop_t(k, h),
     }
 }
 
@@ -938,7 +1029,7 @@ fn cmd_batch(line: &str) {
         conc: num(line, "conc", 4) as u32,
         panic_pct: num(line, "panic", 25) as u32,
         drop_pct: num(line, "drop", 40) as u32,
-        types: num(line, "types", 127) as u32,
+        types: num(line, "types", 1023) as u32,
     });
     let _ = n;
     if !wait_done(s, WATCHDOG_MS.load(Ordering::SeqCst)) {
